@@ -57,6 +57,11 @@ Definition decrypt (a : algo) (key iv ct : bytes) : outcome bytes :=
        | AES128_CTR | AES256_CTR => Ok (aes_ctr key iv ct)
        end.
 
+(* `AES::encrypt` / `AES::decrypt` only forward to `encrypt_impl` / `decrypt_impl`, which are public
+   themselves (ECIES calls them); the four entry points share these two definitions. *)
+Definition encrypt_impl := encrypt.
+Definition decrypt_impl := decrypt.
+
 (* The unrepaired library, kept to state the witnesses of the two defects. *)
 Definition decrypt_unrepaired (a : algo) (key iv ct : bytes) : outcome bytes :=
   match a with
